@@ -65,6 +65,8 @@ def dot(t1, t2, k=None):
 
     if isinstance(t1, torch.Tensor) and isinstance(t2, torch.Tensor):
         return t1.flatten().dot(t2.flatten())
+    if (isinstance(t1, tn.Tensor) and t1.batch) or (isinstance(t2, tn.Tensor) and t2.batch):
+        raise ValueError("Batched tensors are not supproted.")
     # A single dense operand is compressed (losslessly), so that `k` and trailing modes are honored
     if isinstance(t1, torch.Tensor):
         t1 = tn.Tensor(t1)
